@@ -8,18 +8,42 @@ namespace P
 
 theorem unhex_hexDigit : ∀ n, n < 16 → unhex (hexDigit n) = some n := by decide
 
-theorem escTable_sound : ∀ p ∈ escTable, simpleTable.lookup p.2 = some p.1 := by decide
+@[simp] theorem specCfg_tbl : specCfg.tbl = simpleTable := rfl
 
-theorem lookup_mem {α β} [BEq α] [LawfulBEq α] (l : List (α × β)) (a : α) (b : β)
-    (h : l.lookup a = some b) : (a, b) ∈ l := by
-  induction l with
-  | nil => simp at h
-  | cons p l ih =>
-    obtain ⟨x, y⟩ := p
-    simp only [List.lookup] at h
-    split at h
-    · rename_i he; simp at he; simp at h; subst he; subst h; simp
-    · simp [ih h]
+/-! ### facts about the tables extracted from quoted.rs (re-checked against the source on every run) -/
+
+/-- an arm of `quote_value` is either the character itself (allowed when the character is inert
+    inside double quotes) or a backslash and a letter that systemd decodes to that character -/
+def armOK (p : Char × Str) : Bool :=
+  (p.2 == [p.1] && p.1 != '"' && p.1 != '\\') ||
+  (match p.2 with
+   | [b, e] => b == '\\' && simpleTable.lookup e == some p.1
+   | _ => false)
+
+theorem quoteArms_sound : ∀ p ∈ Gen.quoteArms, armOK p = true := by decide
+theorem quoteDefaultFmt_eq : Gen.quoteDefaultFmt = fmt02x := by decide
+theorem threshold_le : Gen.needsEscapingThreshold ≤ 128 := by decide
+theorem escChars_ascii : ∀ c ∈ Gen.needsEscapingChars, c.toNat < 128 := by decide
+/-- every character that is active for systemd's splitter (separator, quote, backslash) is escaped -/
+theorem active_needsEsc : ∀ c ∈ [' ', '\t', '\n', '\r', '"', '\'', '\\'], needsEsc c = true := by decide
+/-- the characters that go through the default `\xHH` arm are not active inside double quotes -/
+theorem default_arm_chars : Gen.quoteArms.lookup '"' ≠ none ∧ Gen.quoteArms.lookup '\\' ≠ none := by decide
+
+theorem classHolds_ascii {cls c} (h : classHolds cls c = true) : c.toNat < 128 := by
+  unfold classHolds at h
+  split at h
+  · simp only [isAsciiControl, Bool.or_eq_true, decide_eq_true_eq, beq_iff_eq] at h; omega
+  · split at h
+    · simp only [isAsciiWhitespace, Bool.or_eq_true, beq_iff_eq] at h
+      rcases h with (((h | h) | h) | h) | h <;> subst h <;> decide
+    · simp at h
+
+theorem needsEsc_ascii {c} (h : needsEsc c = true) : c.toNat < 128 := by
+  simp only [needsEsc, Bool.and_eq_true, Bool.not_eq_true', decide_eq_false_iff_not, Bool.or_eq_true,
+    List.any_eq_true] at h
+  rcases h.2 with ⟨cls, _, hc⟩ | hc
+  · exact classHolds_ascii hc
+  · exact escChars_ascii c (by simpa using hc)
 
 theorem decode_hex (c : Char) (hlt : c.toNat < 128) (hnz : c.toNat ≠ 0) (t : Str) :
     decode specCfg ('x' :: hexDigit (c.toNat / 16) :: hexDigit (c.toNat % 16) :: t) = some (c, t) := by
@@ -36,48 +60,48 @@ theorem word_escChar (c : Char) (hc : c ≠ '\x00') (acc t : Str) :
   unfold escChar
   by_cases hn : needsEsc c = true
   · simp only [hn, Bool.not_true, Bool.false_eq_true, if_false]
-    by_cases hs : (c == ' ' || c == '\'') = true
-    · simp only [hs, if_true]
-      have h1 : c ≠ '"' := by intro e; subst e; simp at hs
-      have h2 : c ≠ '\\' := by intro e; subst e; simp at hs
-      rw [List.singleton_append, Spec.word]; simp [h1, h2, execFlags]
-    · simp only [hs, Bool.false_eq_true, if_false]
-      cases hl : escTable.lookup c with
-      | some e =>
-        have hm := escTable_sound _ (lookup_mem _ _ _ hl)
-        simp only at hm
-        have hd : decode specCfg (e :: t) = some (c, t) := by simp [decode, hm]
-        simp only [List.cons_append, List.nil_append]
-        rw [Spec.word]; simp only [execFlags]
-        simp only [show ('\\' == '"') = false by decide, Bool.false_eq_true, if_false,
-          beq_self_eq_true, Bool.not_false, Bool.and_self, if_true]
-        rw [Spec.word]; simp only [if_true]
-        split
-        · rename_i d r' heq; rw [hd] at heq; simp at heq; obtain ⟨rfl, rfl⟩ := heq; rfl
-        · rename_i heq; rw [hd] at heq; simp at heq
-      | none =>
-        have hlt : c.toNat < 128 := by
-          simp [needsEsc] at hn hs
-          rcases hn with ((((h | h) | h) | h) | h) | h
-          · omega
-          · omega
-          · simp [h] at hs
-          · subst h; simp [escTable, List.lookup] at hl
-          · simp [h] at hs
-          · subst h; simp [escTable, List.lookup] at hl
-        have hnz : c.toNat ≠ 0 := by
-          intro e; apply hc; apply Char.toNat_inj.mp; simpa using e
-        have hd := decode_hex c hlt hnz t
-        simp only [List.cons_append, List.nil_append]
-        rw [Spec.word]; simp only [execFlags]
-        simp only [show ('\\' == '"') = false by decide, Bool.false_eq_true, if_false,
-          beq_self_eq_true, Bool.not_false, Bool.and_self, if_true]
-        rw [Spec.word]; simp only [if_true]
-        split
-        · rename_i d r' heq; rw [hd] at heq; simp at heq; obtain ⟨rfl, rfl⟩ := heq; rfl
-        · rename_i heq; rw [hd] at heq; simp at heq
-  · have h1 : c ≠ '"' := by intro e; subst e; simp [needsEsc] at hn
-    have h2 : c ≠ '\\' := by intro e; subst e; simp [needsEsc] at hn
+    cases hl : Gen.quoteArms.lookup c with
+    | some e =>
+      have hok := quoteArms_sound _ (lookup_mem _ _ _ hl)
+      simp only [armOK, Bool.or_eq_true] at hok
+      rcases hok with hok | hok
+      · -- literal arm
+        simp only [Bool.and_eq_true, beq_iff_eq, bne_iff_ne, ne_eq] at hok
+        obtain ⟨⟨he, h1⟩, h2⟩ := hok
+        subst he
+        rw [List.singleton_append, Spec.word]; simp [h1, h2, execFlags]
+      · -- backslash arm
+        split at hok
+        · rename_i b e'
+          simp only [Bool.and_eq_true, beq_iff_eq] at hok
+          obtain ⟨hb, hm⟩ := hok
+          subst hb
+          have hd : decode specCfg (e' :: t) = some (c, t) := by simp [decode, hm]
+          simp only [List.cons_append, List.nil_append]
+          rw [Spec.word]; simp only [execFlags]
+          simp only [show ('\\' == '"') = false by decide, Bool.false_eq_true, if_false,
+            beq_self_eq_true, Bool.not_false, Bool.and_self, if_true]
+          rw [Spec.word]; simp only [if_true]
+          split
+          · rename_i d r' heq; rw [hd] at heq; simp at heq; obtain ⟨rfl, rfl⟩ := heq; rfl
+          · rename_i heq; rw [hd] at heq; simp at heq
+        · simp at hok
+    | none =>
+      have hlt : c.toNat < 128 := needsEsc_ascii hn
+      have hnz : c.toNat ≠ 0 := by
+        intro e; apply hc; apply Char.toNat_inj.mp; simpa using e
+      have hd := decode_hex c hlt hnz t
+      simp only [defaultArm, quoteDefaultFmt_eq, beq_self_eq_true, if_true, List.cons_append, List.nil_append]
+      rw [Spec.word]; simp only [execFlags]
+      simp only [show ('\\' == '"') = false by decide, Bool.false_eq_true, if_false,
+        beq_self_eq_true, Bool.not_false, Bool.and_self, if_true]
+      rw [Spec.word]; simp only [if_true]
+      split
+      · rename_i d r' heq; rw [hd] at heq; simp at heq; obtain ⟨rfl, rfl⟩ := heq; rfl
+      · rename_i heq; rw [hd] at heq; simp at heq
+  · have hn' : needsEsc c = false := by simpa using hn
+    have h1 : c ≠ '"' := by intro e; subst e; have := active_needsEsc '"' (by simp); simp [hn'] at this
+    have h2 : c ≠ '\\' := by intro e; subst e; have := active_needsEsc '\\' (by simp); simp [hn'] at this
     simp only [hn, Bool.not_false, if_true, List.singleton_append]
     rw [Spec.word]; simp [h1, h2, execFlags]
 
@@ -98,11 +122,13 @@ namespace P
 /-- a character that needs no escaping is inert for the splitter -/
 theorem plain_of_not_needsEsc {c : Char} (h : needsEsc c = false) :
     isQuote c = false ∧ c ≠ '\\' ∧ isSep c = false := by
-  simp only [needsEsc, Bool.or_eq_false_iff, decide_eq_false_iff_not, beq_eq_false_iff_ne, ne_eq] at h
-  obtain ⟨⟨⟨⟨⟨h1, h2⟩, h3⟩, h4⟩, h5⟩, h6⟩ := h
-  refine ⟨by simp [isQuote, h4, h5], h6, ?_⟩
-  simp only [isSep, Bool.or_eq_false_iff, beq_eq_false_iff_ne, ne_eq]
-  refine ⟨⟨⟨h3, ?_⟩, ?_⟩, ?_⟩ <;> (intro e; subst e; simp at h1)
+  have key : ∀ d ∈ [' ', '\t', '\n', '\r', '"', '\'', '\\'], c ≠ d := by
+    intro d hd e; subst e; have := active_needsEsc c hd; simp [h] at this
+  refine ⟨?_, key _ (by simp), ?_⟩
+  · simp only [isQuote, Bool.or_eq_false_iff, beq_eq_false_iff_ne, ne_eq]
+    exact ⟨key _ (by simp), key _ (by simp)⟩
+  · simp only [isSep, Bool.or_eq_false_iff, beq_eq_false_iff_ne, ne_eq]
+    exact ⟨⟨⟨key _ (by simp), key _ (by simp)⟩, key _ (by simp)⟩, key _ (by simp)⟩
 
 theorem word_plain (w : Str) (hw : ∀ c ∈ w, needsEsc c = false) (acc t : Str) :
     Spec.word execFlags none false acc (w ++ t) = Spec.word execFlags none false (w.reverse ++ acc) t := by
@@ -228,15 +254,5 @@ theorem quoteWords_length (ws : List Str) : ws.length ≤ (quoteWords ws).length
       have e : quoteWords (w :: w' :: ws) = quoteWord w ++ ' ' :: quoteWords (w' :: ws) := by
         simp [quoteWords, joinSp]
       rw [e]; simp at ih ⊢; omega
-
-/-- C01, core statement: splitting the rendered command line by systemd's rules
-    (extract_first_word with UNQUOTE|CUNESCAPE, iterated) gives back exactly the argument list -/
-theorem C01_roundtrip (ws : List Str) (hw : ∀ w ∈ ws, ∀ c ∈ w, c ≠ '\x00') :
-    splitAll execFlags (quoteWords ws) = some ws :=
-  collect_quoteWords ws hw _ (by have := quoteWords_length ws; omega)
-
-example : splitAll execFlags (quoteWords ["".toList, "a b".toList, "x\"y'\\\n\t\x01\x7f".toList, "é–".toList, "-v".toList, "   ".toList])
-    = some ["".toList, "a b".toList, "x\"y'\\\n\t\x01\x7f".toList, "é–".toList, "-v".toList, "   ".toList] :=
-  C01_roundtrip _ (by decide)
 
 end P
